@@ -397,10 +397,10 @@ def apply_rules(text, rules, dropped):
     for r in rules:
         if r.startswith('sub:'):
             # sub:/regex/replacement/  -- explicit, listed verbatim in evidence
-            m = re.match(r'sub:/((?:[^/\\]|\\.)*)/((?:[^/\\]|\\.)*)/$', r)
+            m = re.match(r'sub:@([^@]*)@([^@]*)@$', r)
             if not m:
                 raise SliceError(f'bad sub rule {r}')
-            rx, rep = m.group(1), m.group(2).replace('\\/', '/')
+            rx, rep = m.group(1), m.group(2)
             new, n = re.subn(rx, rep, text)
             if n == 0:
                 raise SliceError(f'rule {r} did not apply')
@@ -421,7 +421,7 @@ def apply_rules(text, rules, dropped):
 # --------------------------------------------------------------------------- template
 
 DIRECTIVE = re.compile(r'^\s*//@(\w[\w-]*)\s*(.*)$')
-KV = re.compile(r'(\w+)=(/(?:[^/\\]|\\.)*/|\S+)')
+KV = re.compile(r'(\w+)=(/(?:[^/\\]|\\.)*/|@[^@]*@[^@]*@|\S+)')
 
 
 def parse_target(rest):
@@ -434,10 +434,15 @@ def parse_target(rest):
     file, path = head.split('::', 1)
     # path may itself contain `::`? we use '/' between segments, so join back
     kv = {}
+    subs = []
     for k, v in KV.findall(tail):
+        if k == 'sub':
+            subs.append('sub:' + v)
+            continue
         if len(v) >= 2 and v[0] == '/' and v[-1] == '/':
             v = v[1:-1].replace('\\/', '/')
         kv[k] = v
+    kv['rules'] = [r for r in kv.get('rules', '').split(',') if r] + subs
     return file.strip(), path.strip(), kv
 
 
@@ -531,7 +536,7 @@ def generate(unit_dir, vacuity=False, mutate=None):
             attrs = src.attrs_text(it)
             if attrs.strip():
                 dropped.append(('attrs', re.sub(r'\s+', ' ', attrs.strip())))
-            rules = [r for r in kv.get('rules', '').split(',') if r]
+            rules = kv['rules']
             text = apply_rules(text, rules, dropped)
             if mutate:
                 text = mutate(file, path, text)
@@ -575,7 +580,7 @@ def generate(unit_dir, vacuity=False, mutate=None):
             attrs = src.attrs_text(it)
             if attrs.strip() and d == 'fn':
                 dropped.append(('attrs', re.sub(r'\s+', ' ', attrs.strip())))
-            rules = [r for r in kv.get('rules', '').split(',') if r]
+            rules = kv['rules']
             raw = src.text[s:e]
             nm = kv.get('name') or it['name']
             if d == 'fn':
